@@ -31,7 +31,7 @@ import (
 
 var (
 	fset = token.NewFileSet()
-	info = &types.Info{Types: map[ast.Expr]types.TypeAndValue{}, Defs: map[*ast.Ident]types.Object{}, Uses: map[*ast.Ident]types.Object{}}
+	info = &types.Info{Types: map[ast.Expr]types.TypeAndValue{}, Defs: map[*ast.Ident]types.Object{}, Uses: map[*ast.Ident]types.Object{}, Selections: map[*ast.SelectorExpr]*types.Selection{}}
 	pkg  *types.Package
 	// functions of the package, and which of them live in the res monad (and take fuel)
 	funcs   = map[string]*ast.FuncDecl{}
@@ -48,7 +48,76 @@ var (
 	memParams = map[string]map[string]bool{}
 	// the translation used the codec-interface / memory vocabulary of GoMem.v
 	usedMem bool
+	// unsafe.Pointer parameters a translated method writes through (handed back before its results), in order
+	calleeOuts = map[string][]string{}
+	// package-level variables with an initialiser that the translated functions refer to
+	pkgVars = map[string]*ast.ValueSpec{}
+	usedPkgVars = map[string]bool{}
+	// functions translated into another generated module (analysed here, emitted there): key -> module
+	externMod = map[string]string{}
 )
+
+func isTime(t types.Type) bool {
+	if t == nil {
+		return false
+	}
+	if p, ok := t.(*types.Pointer); ok {
+		t = p.Elem()
+	}
+	return t.String() == "time.Time"
+}
+
+// ptrConvOf: e is (*T)(p) for an unsafe.Pointer variable p: returns p's name and T
+func ptrConvOf(e ast.Expr) (string, types.Type, bool) {
+	for {
+		if pe, ok := e.(*ast.ParenExpr); ok {
+			e = pe.X
+			continue
+		}
+		break
+	}
+	c, ok := e.(*ast.CallExpr)
+	if !ok || len(c.Args) != 1 {
+		return "", nil, false
+	}
+	id, ok := c.Args[0].(*ast.Ident)
+	if !ok {
+		return "", nil, false
+	}
+	if o := info.Uses[id]; o == nil || !isUnsafePtr(o.Type()) {
+		return "", nil, false
+	}
+	tv, ok := info.Types[c.Fun]
+	if !ok || !tv.IsType() {
+		return "", nil, false
+	}
+	pt, ok := tv.Type.(*types.Pointer)
+	if !ok {
+		return "", nil, false
+	}
+	return id.Name, pt.Elem(), true
+}
+
+// addrArgOf: e is unsafe.Pointer(&x) or unsafe.Pointer(&x.f): returns the place whose address is taken
+func addrArgOf(e ast.Expr) (ast.Expr, bool) {
+	c, ok := e.(*ast.CallExpr)
+	if !ok || len(c.Args) != 1 {
+		return nil, false
+	}
+	tv, has := info.Types[c.Fun]
+	if !has || !tv.IsType() || !isUnsafePtr(tv.Type) {
+		return nil, false
+	}
+	u, ok := c.Args[0].(*ast.UnaryExpr)
+	if !ok || u.Op != token.AND {
+		return nil, false
+	}
+	switch u.X.(type) {
+	case *ast.Ident, *ast.SelectorExpr:
+		return u.X, true
+	}
+	return nil, false
+}
 
 // isCodecItf: the interface type Codec of plenccodec (a method table, nil-able)
 func isCodecItf(t types.Type) bool {
@@ -168,6 +237,10 @@ func coqType(t types.Type, at ast.Node) string {
 	if t.String() == "reflect.Type" {
 		return "unit" // only ever used in error messages
 	}
+	if t.String() == "time.Time" {
+		usedMem = true
+		return "gtime" // (Unix seconds, nanosecond) in UTC: GoMem.v
+	}
 	if arr, ok := t.Underlying().(*types.Array); ok {
 		if b, ok := arr.Elem().Underlying().(*types.Basic); ok && b.Kind() == types.Uint8 {
 			return "bytes" // a byte array, as the list of its elements
@@ -221,6 +294,9 @@ func zeroOf(t types.Type, at ast.Node) string {
 	}
 	if t.String() == "reflect.Type" {
 		return "tt"
+	}
+	if t.String() == "time.Time" {
+		return "go_time_zero"
 	}
 	if arr, ok := t.Underlying().(*types.Array); ok {
 		return fmt.Sprintf("(repeat 0%%N %d)", arr.Len())
@@ -421,6 +497,22 @@ func recvBase(fd *ast.FuncDecl) string {
 
 // methodKey: the key of the method a selector call refers to ("" if it is not a call of a translated method)
 func methodKey(sel *ast.SelectorExpr) string {
+	if s, ok := info.Selections[sel]; ok && s.Kind() == types.MethodVal {
+		if fn, ok := s.Obj().(*types.Func); ok {
+			if r := fn.Type().(*types.Signature).Recv(); r != nil {
+				rt := r.Type()
+				if p, ok := rt.(*types.Pointer); ok {
+					rt = p.Elem()
+				}
+				if n, ok := rt.(*types.Named); ok {
+					k := n.Obj().Name() + "." + sel.Sel.Name
+					if _, ok := funcs[k]; ok {
+						return k
+					}
+				}
+			}
+		}
+	}
 	tv, ok := info.Types[sel.X]
 	if !ok || tv.Type == nil {
 		return ""
@@ -442,10 +534,14 @@ func methodKey(sel *ast.SelectorExpr) string {
 
 // coqName: the name of a function / method in the generated file
 func coqName(fd *ast.FuncDecl) string {
-	if fd.Recv != nil {
-		return recvBase(fd) + "_" + fd.Name.Name
+	prefix := ""
+	if m := externMod[fkey(fd)]; m != "" {
+		prefix = m + "."
 	}
-	return sane(fd.Name.Name)
+	if fd.Recv != nil {
+		return prefix + recvBase(fd) + "_" + fd.Name.Name
+	}
+	return prefix + sane(fd.Name.Name)
 }
 
 func recvTypeName(fd *ast.FuncDecl) string {
@@ -568,6 +664,9 @@ func (g *gen) expr(e ast.Expr, pre *[]string) string {
 		}
 		fail(e, "unsupported selector expression")
 	case *ast.CompositeLit:
+		if isTime(tv.Type) && len(x.Elts) == 0 {
+			return "go_time_zero"
+		}
 		n, ok := structName(tv.Type)
 		if !ok {
 			fail(e, "unsupported composite literal")
@@ -594,6 +693,19 @@ func (g *gen) expr(e ast.Expr, pre *[]string) string {
 		if x.Name == "true" || x.Name == "false" {
 			return x.Name
 		}
+		if x.Name == "nil" {
+			if _, isNil := info.Uses[x].(*types.Nil); isNil {
+				return "[]" // a nil slice (nil interfaces only occur in comparisons, handled there)
+			}
+		}
+		if o := info.Uses[x]; o != nil {
+			if _, isVar := o.(*types.Var); isVar && o.Parent() == pkg.Scope() {
+				if _, ok := pkgVars[x.Name]; !ok {
+					fail(e, "package-level variable %s without a translatable initialiser", x.Name)
+				}
+				usedPkgVars[x.Name] = true
+			}
+		}
 		return sane(x.Name)
 	case *ast.UnaryExpr:
 		k, ok := intKind(tv.Type)
@@ -605,6 +717,8 @@ func (g *gen) expr(e ast.Expr, pre *[]string) string {
 			return fmt.Sprintf("(sneg %s %s)", wd(k), g.expr(x.X, pre))
 		case token.NOT:
 			return "(negb " + g.expr(x.X, pre) + ")"
+		case token.ADD:
+			return g.expr(x.X, pre)
 		}
 		fail(e, "unsupported unary operator %s", x.Op)
 	case *ast.BinaryExpr:
@@ -867,6 +981,45 @@ func (g *gen) call(x *ast.CallExpr, pre *[]string) string {
 				return t
 			}
 		}
+		if xt := info.Types[f.X].Type; isTime(xt) {
+			// methods of time.Time: a time travels as (Unix seconds, nanosecond), always UTC (GoSem.v)
+			var recv string
+			if name, t, ok := ptrConvOf(f.X); ok && isTime(t) {
+				recv = sane(name)
+			} else {
+				recv = g.expr(f.X, pre)
+			}
+			switch f.Sel.Name {
+			case "UTC":
+				return recv
+			case "Unix", "Nanosecond", "IsZero", "UnixMicro":
+				return fmt.Sprintf("(go_time_%s_ %s)", f.Sel.Name, recv)
+			}
+			fail(x, "method %s of time.Time outside the subset", f.Sel.Name)
+		}
+		if mk := methodKey(f); mk != "" {
+			if _, isId := f.X.(*ast.Ident); !isId || len(calleeOuts[mk]) > 0 || hasAddrArg(x) {
+				// a translated method on a receiver without state (a composite literal, an embedded codec),
+				// possibly with unsafe.Pointer(&place) arguments
+				if recvWritten[mk] || usesRecv[mk] {
+					fail(x, "a method that uses its receiver is called on something other than a variable")
+				}
+				if len(calleeOuts[mk]) > 0 {
+					fail(x, "a method that writes through a pointer argument is called inside an expression")
+				}
+				args, _ := g.methodArgs(mk, f, x, pre)
+				fd := funcs[mk]
+				if monadic[mk] {
+					if !g.mon {
+						fail(x, "call of monadic %s from a pure function", mk)
+					}
+					t := g.fresh("r")
+					*pre = append(*pre, fmt.Sprintf("do %s <- %s fuel %s;", t, coqName(fd), strings.Join(args, " ")))
+					return t
+				}
+				return "(" + coqName(fd) + " " + strings.Join(args, " ") + ")"
+			}
+		}
 		if isCodecItf(info.Types[f.X].Type) {
 			// a method of the Codec interface: the method table must be there (a nil interface panics)
 			usedMem = true
@@ -938,11 +1091,133 @@ func (g *gen) call(x *ast.CallExpr, pre *[]string) string {
 				return "(go_binary_Uvarint " + g.expr(x.Args[0], pre) + ")"
 			case "bits.Len64":
 				return "(go_bits_Len64 " + g.expr(x.Args[0], pre) + ")"
+			case "time.Unix":
+				return "(go_time_Unix " + g.expr(x.Args[0], pre) + " " + g.expr(x.Args[1], pre) + ")"
+			case "time.UnixMicro":
+				return "(go_time_UnixMicro " + g.expr(x.Args[0], pre) + ")"
 			}
 		}
 	}
 	fail(x, "unsupported call")
 	return ""
+}
+
+func hasAddrArg(x *ast.CallExpr) bool {
+	for _, a := range x.Args {
+		if _, ok := addrArgOf(a); ok {
+			return true
+		}
+	}
+	return false
+}
+
+// outStore: a place the caller handed to a callee as unsafe.Pointer(&place) and that the callee writes
+type outStore struct {
+	place ast.Expr
+	back  func(string) string // converts the value the callee hands back to the place's type
+}
+
+// instType: the type a generic callee uses a pointer at, with the receiver's type argument filled in
+func instType(t types.Type, recvT types.Type) types.Type {
+	if _, ok := t.(*types.TypeParam); !ok {
+		return t
+	}
+	if p, ok := recvT.(*types.Pointer); ok {
+		recvT = p.Elem()
+	}
+	if n, ok := recvT.(*types.Named); ok && n.TypeArgs() != nil && n.TypeArgs().Len() == 1 {
+		return n.TypeArgs().At(0)
+	}
+	return t
+}
+
+// reinterpret: the conversion of a value held at type `from` to what a pointer of type *to reads there
+func reinterpret(v string, from, to types.Type, at ast.Node) string {
+	if types.Identical(from, to) {
+		return v
+	}
+	fk, ok1 := intKind(from)
+	tk, ok2 := intKind(to)
+	if !ok1 || !ok2 || fk.width != tk.width || fk.width <= 0 {
+		fail(at, "a pointer to %s is read at type %s", from, to)
+	}
+	if fk.signed == tk.signed {
+		return v
+	}
+	return fmt.Sprintf("(%s2%s %d %s)", sgn(fk), sgn(tk), tk.width, v)
+}
+
+// methodArgs: the arguments of a call of the translated method mk (the width of a generic receiver first)
+func (g *gen) methodArgs(mk string, f *ast.SelectorExpr, x *ast.CallExpr, pre *[]string) ([]string, []outStore) {
+	fd := funcs[mk]
+	// the receiver type the method is selected on: for a promoted method, the embedded field's type
+	recvT := info.Types[f.X].Type
+	if sel, ok := info.Selections[f]; ok {
+		rt := sel.Recv()
+		for _, idx := range sel.Index()[:len(sel.Index())-1] {
+			if p, ok := rt.(*types.Pointer); ok {
+				rt = p.Elem()
+			}
+			rt = rt.Underlying().(*types.Struct).Field(idx).Type()
+		}
+		recvT = rt
+	}
+	var pnames []string
+	for _, fl := range fd.Type.Params.List {
+		for _, nm := range fl.Names {
+			pnames = append(pnames, nm.Name)
+		}
+	}
+	outSet := map[string]bool{}
+	for _, o := range calleeOuts[mk] {
+		outSet[o] = true
+	}
+	var args []string
+	outsBy := map[string]outStore{}
+	for i, a := range x.Args {
+		if place, ok := addrArgOf(a); ok && i < len(pnames) {
+			ct := ptrTypeOf(fd, pnames[i], 0)
+			if ct == nil {
+				args = append(args, "tt")
+				continue
+			}
+			ct = instType(ct, recvT)
+			pt := info.Types[place].Type
+			args = append(args, reinterpret(g.expr(place, pre), pt, ct, a))
+			if outSet[pnames[i]] {
+				place, pt, ct := place, pt, ct
+				outsBy[pnames[i]] = outStore{place: place, back: func(v string) string { return reinterpret(v, ct, pt, place) }}
+			}
+			continue
+		}
+		args = append(args, g.expr(a, pre))
+	}
+	var outs []outStore
+	for _, o := range calleeOuts[mk] {
+		st, ok := outsBy[o]
+		if !ok {
+			fail(x, "the callee writes through %s, which is not given as unsafe.Pointer(&place)", o)
+		}
+		outs = append(outs, st)
+	}
+	if _, isGeneric := fd.Recv.List[0].Type.(*ast.IndexExpr); isGeneric {
+		w := "w"
+		rt := recvT
+		if p, ok := rt.(*types.Pointer); ok {
+			rt = p.Elem()
+		}
+		if n, ok := rt.(*types.Named); ok && n.TypeArgs() != nil && n.TypeArgs().Len() == 1 {
+			if _, isParam := n.TypeArgs().At(0).(*types.TypeParam); !isParam {
+				k, ok := intKind(n.TypeArgs().At(0))
+				if !ok {
+					fail(x, "type argument %s", n.TypeArgs().At(0))
+				}
+				w = wd(k)
+			}
+		}
+		args = append([]string{w}, args...)
+	}
+	return args, outs
 }
 
 func wd(k ikind) string {
@@ -1084,6 +1359,20 @@ func (g *gen) assigned(stmts []ast.Stmt, out map[string]bool) {
 						out[base] = true
 					}
 				}
+				if sel, ok := a.Fun.(*ast.SelectorExpr); ok {
+					if mk := methodKey(sel); mk != "" {
+						if len(calleeOuts[mk]) > 0 {
+							for _, arg := range a.Args {
+								if place, ok := addrArgOf(arg); ok {
+									root(place)
+								}
+							}
+						}
+						if id, ok := sel.X.(*ast.Ident); ok && recvWritten[mk] && (g.recv == "" || id.Name != g.recv) {
+							root(id)
+						}
+					}
+				}
 			case *ast.ExprStmt:
 				if c, ok := a.X.(*ast.CallExpr); ok {
 					if sel, ok := c.Fun.(*ast.SelectorExpr); ok {
@@ -1191,6 +1480,27 @@ func (g *gen) block(stmts []ast.Stmt, k string, retwrap func(string) string, ind
 				return strings.Join(pre, "\n"+ind) + nl(pre, ind) +
 					fmt.Sprintf("let '(%s, %s) := %s in\n%slet %s := go_field_set %s %s %s in\n%s", pv, names[0], rr, ind, sane(base), sane(base), off, pv, ind) + after
 			}
+			if sel, ok := call.Fun.(*ast.SelectorExpr); ok {
+				if mk := methodKey(sel); mk != "" && len(calleeOuts[mk]) > 0 {
+					// n, err := C{}.Read(data, unsafe.Pointer(&place), wt): what the callee stores through the
+					// pointer comes back in front of its results and is stored in the place
+					if recvWritten[mk] || usesRecv[mk] {
+						fail(x, "a method that uses its receiver and writes through a pointer argument")
+					}
+					args, outs := g.methodArgs(mk, sel, call, &pre)
+					r := g.fresh("r")
+					pre = append(pre, fmt.Sprintf("do %s <- %s fuel %s;", r, coqName(funcs[mk]), strings.Join(args, " ")))
+					var pat []string
+					var stores string
+					for _, o := range outs {
+						ov := g.fresh("pv")
+						pat = append(pat, ov)
+						stores += g.store(o.place, o.back(ov), ind)
+					}
+					pat = append(pat, names...)
+					return strings.Join(pre, "\n"+ind) + nl(pre, ind) + fmt.Sprintf("let '%s := %s in\n%s", tuple(pat), r, ind) + stores + after
+				}
+			}
 			v := g.expr(call, &pre)
 			return strings.Join(pre, "\n"+ind) + nl(pre, ind) + fmt.Sprintf("let '%s := %s in\n%s", tuple(names), v, ind) + after
 		}
@@ -1228,6 +1538,25 @@ func (g *gen) block(stmts []ast.Stmt, k string, retwrap func(string) string, ind
 						var pre []string
 						v := g.expr(c.Args[1], &pre)
 						return strings.Join(pre, "\n"+ind) + nl(pre, ind) + fmt.Sprintf("let %s := (go_le_put %d %s) in\n%s", sane(id.Name), width, v, ind) + rest()
+					}
+				}
+			}
+		}
+		// a call of a method that changes a local struct variable: e.m(args)
+		if c, ok := x.X.(*ast.CallExpr); ok {
+			if sel, ok := c.Fun.(*ast.SelectorExpr); ok {
+				if id, ok := sel.X.(*ast.Ident); ok && (g.recv == "" || id.Name != g.recv) {
+					if mk := methodKey(sel); mk != "" && recvWritten[mk] {
+						fd := funcs[mk]
+						if fd.Type.Results != nil && len(fd.Type.Results.List) > 0 {
+							fail(x, "result of a method call dropped")
+						}
+						var pre []string
+						var args []string
+						for _, a := range c.Args {
+							args = append(args, g.expr(a, &pre))
+						}
+						return strings.Join(pre, "\n"+ind) + nl(pre, ind) + fmt.Sprintf("do %s <- %s fuel %s %s;\n%s", sane(id.Name), coqName(fd), sane(id.Name), strings.Join(args, " "), ind) + rest()
 					}
 				}
 			}
@@ -1359,6 +1688,11 @@ func (g *gen) store(lhs ast.Expr, v string, ind string) string {
 		}
 		if g.recv != "" && id.Name == g.recv {
 			return fmt.Sprintf("let %s := set_%s_%s %s %s in\n%s", sane(g.recv), g.recvT, l.Sel.Name, sane(g.recv), v, ind)
+		}
+		if n, ok := structName(info.Types[l.X].Type); ok {
+			if _, isPlace := g.places[id.Name]; !isPlace {
+				return fmt.Sprintf("let %s := set_%s_%s %s %s in\n%s", sane(id.Name), n, l.Sel.Name, sane(id.Name), v, ind)
+			}
 		}
 		if pl, ok := g.places[id.Name]; ok {
 			c, n := g.fresh("cur"), g.fresh("upd")
@@ -1661,6 +1995,10 @@ func ptrTypeOf(fd *ast.FuncDecl, param string, depth int) types.Type {
 		if e, ok := n.(ast.Expr); ok {
 			if name, t, ok := derefOf(e); ok && name == param {
 				found = t
+			} else if _, isCall := e.(*ast.CallExpr); isCall {
+				if name, t, ok := ptrConvOf(e); ok && name == param {
+					found = t
+				}
 			}
 		}
 		return true
@@ -1725,7 +2063,15 @@ func onlyCallsThrough(fd *ast.FuncDecl) bool {
 	ast.Inspect(fd.Body, func(n ast.Node) bool {
 		if c, isCall := n.(*ast.CallExpr); isCall {
 			if sel, isSel := c.Fun.(*ast.SelectorExpr); isSel {
-				if id, isId := sel.X.(*ast.Ident); isId {
+				e := sel.X
+				for {
+					if inner, ok := e.(*ast.SelectorExpr); ok {
+						e = inner.X // through embedded codecs: c.FlatIntCodec.Read
+						continue
+					}
+					break
+				}
+				if id, isId := e.(*ast.Ident); isId {
 					callRecv[id] = true
 				}
 			}
@@ -1779,7 +2125,13 @@ func (g *gen) function() string {
 	written := map[string]bool{}
 	ast.Inspect(fd.Body, func(n ast.Node) bool {
 		if e, ok := n.(ast.Expr); ok {
-			if name, t, ok := derefOf(e); ok {
+			name, t, ok := derefOf(e)
+			if !ok {
+				if _, isCall := e.(*ast.CallExpr); isCall {
+					name, t, ok = ptrConvOf(e)
+				}
+			}
+			if ok {
 				if old, seen := g.ptrs[name]; seen && !types.Identical(old, t) {
 					fail(e, "pointer %s is used at two types", name)
 				}
@@ -1864,6 +2216,7 @@ func (g *gen) function() string {
 		g.recvRO = !recvWritten[fkey(fd)]
 		params = append([]string{fmt.Sprintf("(%s : %s)", sane(g.recv), g.recvT)}, params...)
 	}
+	calleeOuts[fkey(fd)] = append([]string{}, g.ptrsOut...)
 	rt := g.retType()
 	wrap := func(v string) string { return v }
 	fuel := ""
@@ -1981,16 +2334,27 @@ func corePass(repo string) {
 func main() {
 	// gotrans <repo> <out.v>                              : all of plenccore
 	// gotrans <repo> <out.v> <pkgdir> <file.go> <f1,f2,..> : the named functions / methods of one file of another package
-	if len(os.Args) != 3 && len(os.Args) != 6 {
-		fmt.Fprintln(os.Stderr, "usage: gotrans <repo> <out.v> [<pkgdir> <file.go> <func,func,...>]")
+	// gotrans <repo> <out.v> <pkgdir> - <f1,f2,..> <Module>=<g1,g2,..> : ... calling g1, g2, .. in the generated module <Module>
+	if len(os.Args) != 3 && len(os.Args) != 6 && len(os.Args) != 7 {
+		fmt.Fprintln(os.Stderr, "usage: gotrans <repo> <out.v> [<pkgdir> <file.go|-> <func,func,...> [<Module>=<func,func,...>]]")
 		os.Exit(2)
 	}
 	pkgdir, onlyFile := "plenccore", ""
 	want := map[string]bool{}
-	if len(os.Args) == 6 {
+	if len(os.Args) >= 6 {
 		pkgdir, onlyFile = os.Args[3], os.Args[4]
 		for _, f := range strings.Split(os.Args[5], ",") {
 			want[f] = true
+		}
+	}
+	if len(os.Args) == 7 {
+		mod, list, ok := strings.Cut(os.Args[6], "=")
+		if !ok {
+			fail(nil, "bad extern argument %s", os.Args[6])
+		}
+		for _, f := range strings.Split(list, ",") {
+			want[f] = true
+			externMod[f] = mod
 		}
 	}
 	dir := filepath.Join(os.Args[1], pkgdir)
@@ -2032,6 +2396,17 @@ func main() {
 	pkg, err = conf.Check(p.Name, fset, files, info)
 	if err != nil {
 		fail(nil, "type check: %v", err)
+	}
+	for _, f := range files {
+		for _, d := range f.Decls {
+			if gd, ok := d.(*ast.GenDecl); ok && gd.Tok == token.VAR {
+				for _, sp := range gd.Specs {
+					if vs, ok := sp.(*ast.ValueSpec); ok && len(vs.Names) == 1 && len(vs.Values) == 1 {
+						pkgVars[vs.Names[0].Name] = vs
+					}
+				}
+			}
+		}
 	}
 	var order []string
 	selecting := len(want) > 0
@@ -2259,6 +2634,20 @@ func main() {
 	if wholePkg {
 		out.WriteString("From PlencGen Require GenCore.\n")
 	}
+	{
+		mods := map[string]bool{}
+		for _, m := range externMod {
+			mods[m] = true
+		}
+		var ml []string
+		for m := range mods {
+			ml = append(ml, m)
+		}
+		sort.Strings(ml)
+		for _, m := range ml {
+			out.WriteString("From PlencGen Require " + m + ".\n")
+		}
+	}
 	out.WriteString("Open Scope N_scope.\n\n")
 	// the package's integer constants
 	scope := pkg.Scope()
@@ -2305,11 +2694,31 @@ func main() {
 	}
 	out.WriteString(recordDefs(recs))
 	out.WriteString("\n")
+	var body strings.Builder
 	for _, n := range sorted {
 		g := &gen{fn: funcs[n]}
-		out.WriteString(g.function())
-		out.WriteString("\n")
+		text := g.function()
+		if externMod[n] != "" {
+			continue // emitted in that module; analysed here for its calling convention
+		}
+		body.WriteString(text)
+		body.WriteString("\n")
 	}
+	// package-level variables the functions refer to: initialised once, before anything runs
+	var pvs []string
+	for n := range usedPkgVars {
+		pvs = append(pvs, n)
+	}
+	sort.Strings(pvs)
+	for _, n := range pvs {
+		vs := pkgVars[n]
+		g := &gen{fn: &ast.FuncDecl{Name: ast.NewIdent("init")}, mon: true}
+		var pre []string
+		v := g.expr(vs.Values[0], &pre)
+		t := info.Defs[vs.Names[0]].Type()
+		out.WriteString(fmt.Sprintf("(* %s *)\nDefinition %s : %s := go_init %s (let fuel := 64%%nat in %s Ok %s).\n\n", posOf(vs), sane(n), coqType(t, vs), zeroOf(t, vs), strings.Join(pre, " "), v))
+	}
+	out.WriteString(body.String())
 	var ml []string
 	for _, n := range sorted {
 		if monadic[n] {
